@@ -254,12 +254,24 @@ def run(prog: Program, col: Collector, tier: str, refs: Optional[Refs] = None, c
         if isinstance(n, ast.Assign) and len(n.targets) == 1 and isinstance(n.targets[0], ast.Name):
             locals_.setdefault(n.targets[0].id, []).append(n.value)
 
+    def is_dedup(v):
+        return isinstance(v, ast.Call) and ((isinstance(v.func, ast.Attribute) and v.func.attr == "fromkeys")
+                                            or (isinstance(v.func, ast.Name) and v.func.id in ("set", "frozenset")) or norm(v.func).endswith("unique")) \
+            or (isinstance(v, ast.Call) and isinstance(v.func, ast.Name) and v.func.id in ("list", "tuple", "sorted") and v.args and is_dedup(v.args[0]))
+
     def covers_terms(e, depth=0):
         """True / False (positively drops or filters) / None (unknown)"""
         if depth > 4:
             return None
         if isinstance(e, ast.Name) and e.id in locals_ and len(locals_[e.id]) == 1:
             return covers_terms(locals_[e.id][0], depth + 1)
+        if isinstance(e, ast.Name) and e.id in locals_ and len(locals_[e.id]) > 1:
+            # re-bindings that only remove duplicates are judged separately (below); the others must all cover the terms
+            rest = [d for d in locals_[e.id] if not is_dedup(d)]
+            res = [covers_terms(d, depth + 1) for d in rest]
+            if rest and all(r is True for r in res):
+                return True
+            return False if any(r is False for r in res) else None
         if isinstance(e, ast.Call) and isinstance(e.func, ast.Name) and e.func.id in ("list", "tuple", "reversed", "sorted") and len(e.args) >= 1:
             return covers_terms(e.args[0], depth + 1)
         if isinstance(e, ast.Call) and isinstance(e.func, ast.Name) and e.func.id == "map" and len(e.args) == 2:
@@ -292,6 +304,35 @@ def run(prog: Program, col: Collector, tier: str, refs: Optional[Refs] = None, c
             return norm(e.body.args[0]) == f"{x}.bin_op"
         return None
 
+    # removing repeated terms before the fold: op(a, a) == a only for idempotent ops, so the removal must sit under a test of x.bin_op
+    # against ops that ARE idempotent (max, min, and, or - not add, mul, logaddexp)
+    from .. import axioms as _ax
+    IDEMP = {"MAX", "MIN", "AND", "OR"}
+    for nm, ds in locals_.items():
+        for d in ds:
+            if not is_dedup(d):
+                continue
+            st_ = d
+            while not isinstance(st_, ast.stmt):
+                st_ = lc.module.parent.get(st_)
+            guards = [a for a in lc.module.ancestors(st_) if isinstance(a, ast.If) and any(st_ is y for b_ in a.body for y in ast.walk(b_))]
+            ops_named = []
+            tested = False
+            for g in guards:
+                for t in ast.walk(g.test):
+                    if isinstance(t, ast.Compare) and len(t.ops) == 1 and norm(t.left) == f"{x}.bin_op" and isinstance(t.ops[0], (ast.In, ast.Is, ast.Eq)):
+                        tested = True
+                        cmpv = t.comparators[0]
+                        if isinstance(cmpv, ast.Name):
+                            lk = prog.lookup(refs.resolve(cmpv) or "")
+                            cmpv = lk[2] if lk and lk[0] == "value" else cmpv
+                        for e_ in (cmpv.elts if isinstance(cmpv, (ast.Tuple, ast.List, ast.Set)) else [cmpv]):
+                            o_ = cat.resolve_op(lc.module, e_) if isinstance(e_, (ast.Name, ast.Attribute)) else None
+                            ops_named.append((norm(e_), _ax.identify(cat, o_) if o_ is not None else None))
+            bad_ops = [n_ for n_, ab in ops_named if ab not in IDEMP]
+            col.check(tested and not bad_ops, f"{lc.fq}::{norm(d)[:50]}", "repeated terms are removed only under a test that bin_op is idempotent (max / min / and / or)",
+                      f"`{norm(d)[:50]}` removes repeated terms of the contraction" + (f" for ops including {bad_ops}, which are not idempotent" if bad_ops else " without a test of the op")
+                      + ": op(a, a) != a for add, mul and logaddexp (logaddexp(x, x) = x + log 2), so the compiled program drops a contribution the term has", lc.loc(st_))
     for r_ in [n for n in walk_no_nested(lc.node) if isinstance(n, ast.Return) and n.value is not None]:
         c = r_.value
         if isinstance(c, ast.Call) and norm(c.func) in ("functools.reduce", "reduce") and len(c.args) in (2, 3):
@@ -657,6 +698,15 @@ def _trace_record(prog: Program, col: Collector, refs: Refs):
                   f"the record `{norm(tup)}` does not depend on {' / '.join(('**' if p == kw else '*') + p for p in missing)} of the call: "
                   f"an op called with keyword parameters (ops.sum(x, axis=0), ops.clamp(x, min=a)) is traced as the default-parametrised op and the program computes something else",
                   f.loc(rec))
+        # ... on EVERY path: each definition of the recorded op must itself be built from both (a shortcut `op = self` for calls
+        # that "look" parameter-free records the default-parametrised op)
+        if isinstance(tup.elts[1], ast.Name):
+            for d in [x for x in walk_no_nested(f.node) if isinstance(x, ast.Assign) and any(isinstance(t, ast.Name) and t.id == tup.elts[1].id for t in x.targets)]:
+                dd = param_deps(f, d.value, d)
+                miss = [p for p in (va, kw) if p not in dd]
+                col.check(not miss, f"{f.fq}::{norm(d)[:60]}", "this definition of the recorded op is built from the call's positional and keyword arguments",
+                          f"on this path the recorded op is `{norm(d.value)[:40]}`, which does not depend on {' / '.join(('**' if p == kw else '*') + p for p in miss)}: parameters passed "
+                          "with the call are not part of the record, so the traced program applies another op than the one that ran", f.loc(d))
         # the parameters an op INSTANCE carries (ops.SumOp(0), node.op of a Unary) are merged into the call's arguments by a loop over
         # self.defaults; what the record is built from must be read after that merge
         selfn = f.positional[0]
